@@ -102,6 +102,81 @@ where
         }
     }
 
+
+    /// if two states agree on `par`, they agree on wf and root
+    proof fn lemma_same_par(a: &Self, b: &Self, j: int, d: spec_fn(int) -> nat)
+        requires a.wf(), a.ranked(d), a.dom(j), forall|i: int| #[trigger] b.par(i) == a.par(i),
+        ensures b.wf(), b.root(j) == a.root(j)
+        decreases d(j)
+    {
+        assert(b.ranked(d)) by {
+            assert forall|i: int| b.dom(i) && b.par(i) != Some(i) implies #[trigger] d(b.par(i).unwrap()) < d(i) by { assert(a.dom(i)); }
+        }
+        assert(b.wf()) by {
+            assert forall|i: int| b.dom(i) implies #[trigger] b.dom(b.par(i).unwrap()) by { assert(a.dom(i)); assert(a.dom(a.par(i).unwrap())); }
+            assert forall|i: int| b.dom(i) implies 0 <= i <= usize::MAX by { assert(a.dom(i)); }
+        }
+        if a.par(j) == Some(j) {
+            assert(b.par(j) == Some(j));
+        } else {
+            let p = a.par(j).unwrap();
+            assert(a.dom(p));
+            Self::lemma_same_par(a, b, p, d);
+            assert(b.par(j) == Some(p));
+        }
+    }
+
+
+    /// linking root `rb` under a different root `ra`: every member of rb's class now has root ra
+    proof fn lemma_link(a: &Self, b: &Self, ra: int, rb: int, j: int, d: spec_fn(int) -> nat)
+        requires a.wf(), b.wf(), a.ranked(d), a.dom(ra), a.dom(rb), ra != rb, a.par(ra) == Some(ra), a.par(rb) == Some(rb), a.dom(j),
+            forall|i: int| #[trigger] b.par(i) == if i == rb { Some(ra) } else { a.par(i) },
+        ensures b.root(j) == if a.root(j) == rb { ra } else { a.root(j) }
+        decreases d(j)
+    {
+        if j == rb {
+            assert(b.par(ra) == Some(ra));
+            assert(b.root(ra) == ra);
+            assert(b.root(rb) == b.root(ra));
+            assert(a.root(rb) == rb);
+        } else if a.par(j) == Some(j) {
+            assert(b.par(j) == Some(j));
+            assert(a.root(j) == j);
+        } else {
+            let p = a.par(j).unwrap();
+            assert(a.dom(p));
+            Self::lemma_link(a, b, ra, rb, p, d);
+            assert(b.par(j) == Some(p));
+        }
+    }
+
+    proof fn lemma_link_ranked(a: &Self, b: &Self, ra: int, rb: int, d: spec_fn(int) -> nat)
+        requires a.wf(), a.ranked(d), a.dom(ra), a.dom(rb), ra != rb, a.par(ra) == Some(ra), a.par(rb) == Some(rb),
+            forall|i: int| #[trigger] b.par(i) == if i == rb { Some(ra) } else { a.par(i) },
+        ensures b.wf()
+    {
+        let big = d(ra) + 1;
+        let d2 = |i: int| if a.dom(i) && a.root(i) == rb { (d(i) + big) as nat } else { d(i) };
+        assert(b.ranked(d2)) by {
+            assert forall|i: int| b.dom(i) && b.par(i) != Some(i) implies #[trigger] d2(b.par(i).unwrap()) < d2(i) by {
+                assert(a.dom(i));
+                if i == rb {
+                    a.lemma_root_props(d, rb);
+                    a.lemma_root_props(d, ra);
+                    assert(a.root(ra) == ra);
+                } else {
+                    let p = a.par(i).unwrap();
+                    assert(a.dom(p));
+                    assert(a.root(i) == a.root(p));
+                }
+            }
+        }
+        assert forall|i: int| b.dom(i) implies #[trigger] b.dom(b.par(i).unwrap()) by {
+            assert(a.dom(i)); if i != rb { assert(a.dom(a.par(i).unwrap())); }
+        }
+        assert forall|i: int| b.dom(i) implies 0 <= i <= usize::MAX by { assert(a.dom(i)); }
+    }
+
     /// roots are preserved when a fresh singleton `x` is added
     proof fn lemma_add_singleton(old_s: &Self, new_s: &Self, x: int, j: int, d: spec_fn(int) -> nat)
         requires old_s.wf(), new_s.wf(), old_s.ranked(d), !old_s.dom(x), old_s.dom(j),
@@ -251,12 +326,28 @@ where
     pub fn add_data(&mut self, value: &Value, data: Data)
         requires old(self).wf(),
         ensures final(self).wf(),
+            forall|i: int| final(self).dom(i) == (old(self).dom(i) || i == value.index_spec()),
             forall|i: int| old(self).dom(i) ==> #[trigger] final(self).root(i) == old(self).root(i),
             forall|i: int| #[trigger] final(self).dat(i) == if i == final(self).root(value.index_spec() as int) { Some(old(self).dat_or_id(i).combine_spec(data)) } else { old(self).dat(i) },
     {
         let root = self.find(value);
+        let ghost s1 = *self;
         let previous_data = self.data.remove(&root).unwrap_or(Data::identity());
         self.data.insert(&root, previous_data.combine(data));
+        proof {
+            let s2 = *self;
+            let d1 = s1.dwit();
+            let x = value.index_spec() as int;
+            assert(s1.ranked(d1));
+            assert(s1.dom(x));
+            assert forall|i: int| #[trigger] s2.par(i) == s1.par(i) by {}
+            Self::lemma_same_par(&s1, &s2, x, d1);
+            assert forall|i: int| s1.dom(i) implies #[trigger] s2.root(i) == s1.root(i) by {
+                Self::lemma_same_par(&s1, &s2, i, d1);
+            }
+            assert(root.index_spec() as int == s2.root(x));
+            assert forall|i: int| #[trigger] s2.dat(i) == (if i == s2.root(x) { Some(s1.dat_or_id(i).combine_spec(data)) } else { s1.dat(i) }) by {}
+        }
     }
 
     pub fn set_data(&mut self, value: &Value, data: Data)
@@ -268,16 +359,60 @@ where
         self.data.insert(&root, data);
     }
 
+    pub open spec fn root_or_self(&self, x: int) -> int { if self.dom(x) { self.root(x) } else { x } }
+
     pub fn union(&mut self, v1: &Value, v2: &Value)
         requires old(self).wf(),
         ensures final(self).wf(),
+            ({ let ra = old(self).root_or_self(v1.index_spec() as int); let rb = old(self).root_or_self(v2.index_spec() as int);
+               &&& forall|i: int| old(self).dom(i) ==> #[trigger] final(self).root(i) == (if old(self).root(i) == rb { ra } else { old(self).root(i) })
+               &&& ra != rb ==> forall|i: int| #[trigger] final(self).dat(i) == (if i == ra { Some(old(self).dat_or_id(ra).combine_spec(old(self).dat_or_id(rb))) } else if i == rb { None } else { old(self).dat(i) })
+               // naive model: joining two members of one class changes nothing (D16)
+               &&& ra == rb ==> forall|i: int| #[trigger] final(self).dat(i) == old(self).dat(i)
+            }),
     {
+        let ghost s0 = *self;
+        let ghost x1 = v1.index_spec() as int;
+        let ghost x2 = v2.index_spec() as int;
         let v1 = self.find(v1);
+        let ghost s1 = *self;
         let v2 = self.find(v2);
+        let ghost s2 = *self;
+        let ghost ra = v1.index_spec() as int;
+        let ghost rb = v2.index_spec() as int;
+        proof {
+            broadcast use axiom_key_clone;
+            let d2 = s2.dwit();
+            assert(s2.ranked(d2));
+            assert(s1.dom(x1)); assert(s2.dom(x1)); assert(s2.dom(x2));
+            assert(ra == s1.root(x1));
+            assert(s2.root(x1) == s1.root(x1));
+            s2.lemma_root_props(d2, x1);
+            s2.lemma_root_props(d2, x2);
+        }
         let v1_val = self.data.get(&v1).cloned().unwrap_or(Data::identity());
         let v2_val = self.data.remove(&v2).unwrap_or(Data::identity());
         self.data.insert(&v1, v1_val.combine(v2_val));
+        let ghost s3 = *self;
         self.reps.insert(&v2, v1);
+        proof {
+            let s4 = *self;
+            let d2 = s2.dwit();
+            assert forall|i: int| #[trigger] s3.par(i) == s2.par(i) by {}
+            if ra != rb {
+                assert forall|i: int| #[trigger] s4.par(i) == (if i == rb { Some(ra) } else { s2.par(i) }) by {}
+                Self::lemma_link_ranked(&s2, &s4, ra, rb, d2);
+                assert forall|i: int| s2.dom(i) implies #[trigger] s4.root(i) == (if s2.root(i) == rb { ra } else { s2.root(i) }) by {
+                    Self::lemma_link(&s2, &s4, ra, rb, i, d2);
+                }
+            } else {
+                assert forall|i: int| #[trigger] s4.par(i) == s2.par(i) by {}
+                assert forall|i: int| s2.dom(i) implies #[trigger] s4.root(i) == s2.root(i) by {
+                    Self::lemma_same_par(&s2, &s4, i, d2);
+                }
+                Self::lemma_same_par(&s2, &s4, x1, d2);
+            }
+        }
     }
 }
 }
